@@ -1195,6 +1195,24 @@ class Builtins:
     def x_re_fullmatch(self, args, kwargs, node, fr) -> Value:
         return self._rx_call("re.fullmatch", args, kwargs, node, fr, {"match_or_none": True})
 
+    def x_re_sub(self, args, kwargs, node, fr) -> Value:
+        I = self.I
+        I.run.event("extern_call", name="re.sub", args=args, kwargs=kwargs, node=node, recv=None,
+                    func=(fr.func.qualname if fr and fr.func else ""), module=(fr.module if fr else ""))
+        argtxt = ", ".join(I.expr_of(a) for a in args)
+        return Str((Hole(f"re.sub({argtxt})", "derived", None, meta={"op": "re.sub", "args": args}),))
+
+    x_regex_sub = x_re_sub
+
+    def x_re_escape(self, args, kwargs, node, fr) -> Value:
+        import re as _pyre
+        a = args[0]
+        if isinstance(a, Str) and a.is_concrete():
+            return Str.lit(_pyre.escape(a.text()))
+        return Str((Hole(f"re.escape({self.I.expr_of(a)})", "derived"),))
+
+    x_regex_escape = x_re_escape
+
     def x_re_compile(self, args, kwargs, node, fr) -> Value:
         pat = args[0] if args else kwargs.get("pattern")
         return Unknown(self.I.run.new_tag("re.compile"), {"compiled": ("re", pat), "truthy": True, "not_none": True,
